@@ -214,7 +214,7 @@ class Gen:
         if self.vt >= (1, 1):
             prons = []
             for _ in range(r.choice([0, 0, 1, 2])):
-                p = {'text': r.choice(['kæt', 'dɒɡ', self.text()])}
+                p = {'text': r.choice(['kæt', 'dɒɡ', self.text(), ''])}
                 if self.chance(0.4):
                     p['variety'] = r.choice(['GB', 'US'])
                 if self.chance(0.4):
@@ -226,7 +226,7 @@ class Gen:
                 prons.append(p)
             if prons:
                 f['pronunciations'] = prons
-        tags = [{'text': self.text(), 'category': r.choice(['number', 'tense', self.attr()])}
+        tags = [{'text': self.text() if self.chance(0.85) else '', 'category': r.choice(['number', 'tense', self.attr()])}
                 for _ in range(r.choice([0, 0, 1, 2]))]
         if tags:
             f['tags'] = tags
